@@ -1162,7 +1162,7 @@ def leg_normalize(ctx, P, spec, rng, force=None):
             again = flat_pts(again, k)
             for i in range(len(flat_in)):
                 for ax in range(k):
-                    x, y, y2 = flat_in[i, ax], flat_res[i, ax], again[i, ax]
+                    x, y, y2 = float(flat_in[i, ax]), float(flat_res[i, ax]), float(again[i, ax])
                     big = max(abs(x), abs(lo[ax]), abs(hi[ax]), L[ax])
                     t = 4e-16 * big * 8 + 1e-300
                     if per[ax] or reflect:
@@ -1567,7 +1567,7 @@ def leg_random(ctx, P, spec, rng, force=None):
                 lo_, hi_ = float(lo), float(hi)
                 lo_b = lo_ + bd if (not sym or ax == 1 or avoid) else lo_
                 if not (lo_b - 1e-9 * asc[ax] <= asgrid[ax] <= hi_ - bd + 1e-9 * asc[ax]):
-                    bad = f"grid coordinate {ax} = {asgrid[ax]!r} violates the boundary distance {bd!r} in [{lo_!r}, {hi_!r}]"
+                    bad = f"grid coordinate {ax} = {float(asgrid[ax])!r} violates the boundary distance {bd!r} in [{lo_!r}, {hi_!r}]"
         if bad:
             ctx.monitor_fail("random", case, {"point": pt.tolist(), "problem": bad}, "contained, at the requested distance",
                              f"{spec['cls']}: get_random_point", key={"grid_class": spec["cls"], "leg": "random"})
